@@ -384,7 +384,7 @@ class Prover:
                     return r
         return None
 
-    CASE_SPLIT_BUDGET_S = 12.0
+    CASE_SPLIT_BUDGET_S = float(__import__("os").environ.get("PYVC_CASE_SPLIT_BUDGET_S", "30"))
 
     def prove_eq(self, a, b, _depth=0, _deadline=None):
         """a == b as exact normal forms; if-then-else atoms with an undecided condition
